@@ -1,42 +1,615 @@
 package interp
 
-// Channels, goroutines and locks. Sequential model first; the bounded
-// scheduler (threads under a baton, every interleaving of visible operations
-// as decisions) is layered on top of the same entry points.
+// Bounded symbolic scheduling (DESIGN.md §2.8). Interpreted goroutines run as
+// engine threads under a baton (exactly one runs at a time). At every visible
+// operation — go, mutex/RWMutex ops, channel send/recv/close/len, WaitGroup.Wait,
+// sync/atomic ops, accesses to cells marked with symx.Shared — the scheduler
+// takes a decision "which enabled thread runs next"; the decision is recorded in
+// the path's decision list like a branch and the alternatives are pushed as
+// sibling paths, so every interleaving of visible operations within the
+// preemption bound is explored. A vector-clock happens-before relation flags
+// conflicting accesses to Go maps and Shared cells that are unordered.
 
 import (
 	"fmt"
 	"go/token"
 	"go/types"
+	"strings"
+	"sync"
 
 	"golang.org/x/tools/go/ssa"
 )
 
-type scheduler struct {
-	threads []*thread
-	cur     int
-	enabled bool
-}
+type vclock []int
 
-func (s *scheduler) lock(i *interpreter, m value, write bool)                {}
-func (s *scheduler) unlock(i *interpreter, m value, write bool)              {}
-func (s *scheduler) waitUntil(i *interpreter, cond func() bool, what string) {}
+func (v vclock) clone() vclock { return append(vclock{}, v...) }
+func (v *vclock) join(o vclock) {
+	for len(*v) < len(o) {
+		*v = append(*v, 0)
+	}
+	for k, x := range o {
+		if x > (*v)[k] {
+			(*v)[k] = x
+		}
+	}
+}
+func (v vclock) at(k int) int {
+	if k < len(v) {
+		return v[k]
+	}
+	return 0
+}
 
 type thread struct {
-	id   int
-	done bool
+	id      int
+	wake    chan struct{}
+	done    bool
+	blocked func() bool // nil = runnable; otherwise runnable iff it returns false
+	what    string
+	vc      vclock
+	offer   *offer // pending send on an unbuffered/full channel
 }
 
-func (s *scheduler) reset()                                     {}
-func (s *scheduler) finishMain(i *interpreter)                  {}
-func (s *scheduler) visible(i *interpreter, op string, obj any) {}
+type offer struct {
+	ch    *schan
+	v     value
+	taken bool
+}
+
+type epoch struct {
+	tid, clk int
+	fn       string
+}
+
+type accessRec struct {
+	lastWrite *epoch
+	reads     map[int]epoch // tid -> last read
+}
+
+type mutexVC struct {
+	w vclock // released by Unlock
+	r vclock // join of RUnlocks
+}
+
+type scheduler struct {
+	enabled    bool
+	maxPreempt int
+	threads    []*thread
+	cur        *thread
+	preempts   int
+	kill       chan struct{}
+	killed     bool
+	failure    any
+	failSite   string
+	wg         sync.WaitGroup
+	shared     map[*value]string
+	access     map[any]*accessRec
+	mvc        map[*value]*mutexVC
+	chvc       map[*schan]vclock
+	wgvc       map[*value]vclock
+	races      map[string]bool
+	steps      int
+}
+
+func (s *scheduler) reset() {
+	s.threads = []*thread{{id: 0, wake: make(chan struct{}, 1), vc: vclock{1}}}
+	s.cur = s.threads[0]
+	s.preempts = 0
+	s.kill = make(chan struct{})
+	s.killed = false
+	s.failure = nil
+	s.failSite = ""
+	s.shared = map[*value]string{}
+	s.access = map[any]*accessRec{}
+	s.mvc = map[*value]*mutexVC{}
+	s.chvc = map[*schan]vclock{}
+	s.wgvc = map[*value]vclock{}
+	s.races = map[string]bool{}
+	s.steps = 0
+}
+
+func (t *thread) runnable() bool {
+	return !t.done && (t.blocked == nil || !t.blocked())
+}
+
+// tick advances the current thread's own clock component.
+func (s *scheduler) tick() {
+	t := s.cur
+	for len(t.vc) <= t.id {
+		t.vc = append(t.vc, 0)
+	}
+	t.vc[t.id]++
+}
+
+// decide picks the next thread among the runnable ones and records the decision.
+func (s *scheduler) decide(i *interpreter, why string) *thread {
+	var en []*thread
+	for _, t := range s.threads {
+		if t.runnable() {
+			en = append(en, t)
+		}
+	}
+	if len(en) == 0 {
+		return nil
+	}
+	curEnabled := s.cur.runnable()
+	p := i.path
+	var chosen *thread
+	if p.pos < len(p.prefix) {
+		d := p.prefix[p.pos]
+		p.pos++
+		if d.Kind != DecSched {
+			panic(abort{kind: "inconclusive", msg: "nondeterministic replay: expected schedule decision"})
+		}
+		for _, t := range en {
+			if int64(t.id) == d.V {
+				chosen = t
+			}
+		}
+		if chosen == nil {
+			panic(abort{kind: "inconclusive", msg: "nondeterministic replay: scheduled thread not enabled"})
+		}
+		p.decisions = append(p.decisions, d)
+	} else {
+		// default: keep running the current thread when possible
+		chosen = en[0]
+		if curEnabled {
+			chosen = s.cur
+		}
+		for _, t := range en {
+			if t == chosen {
+				continue
+			}
+			if curEnabled && s.preempts >= s.maxPreempt {
+				continue // preemption budget used up: alternatives that preempt are outside the bound
+			}
+			np := make([]Decision, len(p.decisions)+1)
+			copy(np, p.decisions)
+			np[len(p.decisions)] = Decision{Kind: DecSched, V: int64(t.id)}
+			i.exp.push(workItem{prefix: np, model: p.model})
+		}
+		p.decisions = append(p.decisions, Decision{Kind: DecSched, V: int64(chosen.id)})
+	}
+	if curEnabled && chosen != s.cur {
+		s.preempts++
+	}
+	return chosen
+}
+
+// yield is called by the running thread at a visible operation (before performing it).
+func (s *scheduler) yield(i *interpreter, why string) {
+	if !s.enabled || i.path == nil || len(s.threads) < 2 {
+		return
+	}
+	s.steps++
+	if s.steps > 5000 {
+		panic(abort{kind: "fuel", msg: "schedule length exceeds 5000 visible operations"})
+	}
+	me := s.cur
+	next := s.decide(i, why)
+	if next == nil {
+		s.deadlock(i)
+	}
+	if next != me {
+		s.switchTo(next, me)
+	}
+}
+
+// block parks the current thread until blocked() turns false.
+func (s *scheduler) block(i *interpreter, blocked func() bool, what string) {
+	me := s.cur
+	me.blocked = blocked
+	me.what = what
+	for me.blocked != nil && me.blocked() {
+		next := s.decide(i, what)
+		if next == nil {
+			s.deadlock(i)
+		}
+		if next == me {
+			break
+		}
+		s.switchTo(next, me)
+	}
+	me.blocked = nil
+	me.what = ""
+}
+
+func (s *scheduler) deadlock(i *interpreter) {
+	var sb strings.Builder
+	for _, t := range s.threads {
+		if !t.done {
+			fmt.Fprintf(&sb, "T%d:%s ", t.id, t.what)
+		}
+	}
+	panic(abort{kind: "deadlock", msg: "all threads blocked: " + sb.String()})
+}
+
+// switchTo hands the baton to next and waits until it comes back to me.
+func (s *scheduler) switchTo(next, me *thread) {
+	s.cur = next
+	next.wake <- struct{}{}
+	s.waitBaton(me)
+}
+
+func (s *scheduler) waitBaton(me *thread) {
+	select {
+	case <-me.wake:
+		if s.killed {
+			panic(abort{kind: "killed", msg: "path aborted in another thread"})
+		}
+		s.cur = me
+	case <-s.kill:
+		panic(abort{kind: "killed", msg: "path aborted in another thread"})
+	}
+}
+
+// fail records the first failure of the path and wakes every parked thread.
+func (s *scheduler) fail(r any, site string) {
+	if !s.killed {
+		s.killed = true
+		s.failure = r
+		s.failSite = site
+		close(s.kill)
+	}
+}
 
 func (i *interpreter) spawn(fr *frame, pos token.Pos, fn value, args []value) {
-	panic(abort{kind: "unsupported", msg: "go statement (scheduler not enabled)"})
+	s := i.sched
+	if s == nil || !s.enabled || i.path == nil {
+		panic(abort{kind: "unsupported", msg: "go statement (scheduler not enabled for this harness)"})
+	}
+	if len(s.threads) >= 6 {
+		panic(abort{kind: "unsupported", msg: "more than 5 goroutines"})
+	}
+	s.tick()
+	t := &thread{id: len(s.threads), wake: make(chan struct{}, 1), vc: s.cur.vc.clone()}
+	for len(t.vc) <= t.id {
+		t.vc = append(t.vc, 0)
+	}
+	t.vc[t.id] = 1
+	s.threads = append(s.threads, t)
+	s.wg.Add(1)
+	go func() {
+		defer s.wg.Done()
+		defer func() {
+			r := recover()
+			t.done = true
+			if r != nil {
+				if a, ok := r.(abort); ok && a.kind == "killed" {
+					return
+				}
+				s.fail(r, i.panicSite)
+				return
+			}
+			if s.killed {
+				return
+			}
+			// normal termination: pass the baton on
+			next := (*thread)(nil)
+			func() {
+				defer func() {
+					if r2 := recover(); r2 != nil {
+						s.fail(r2, "")
+					}
+				}()
+				next = s.decide(i, "exit")
+				if next == nil {
+					for _, o := range s.threads {
+						if !o.done {
+							s.deadlock(i)
+						}
+					}
+				}
+			}()
+			if next != nil && !s.killed {
+				s.cur = next
+				next.wake <- struct{}{}
+			}
+		}()
+		// wait to be scheduled for the first time
+		select {
+		case <-t.wake:
+			if s.killed {
+				panic(abort{kind: "killed"})
+			}
+			s.cur = t
+		case <-s.kill:
+			panic(abort{kind: "killed"})
+		}
+		call(i, nil, pos, fn, args)
+	}()
+	s.yield(i, "go")
 }
+
+// finishMain: the harness entry returned; run the remaining threads to completion.
+func (s *scheduler) finishMain(i *interpreter) {
+	if !s.enabled {
+		return
+	}
+	me := s.threads[0]
+	me.blocked = func() bool {
+		for _, t := range s.threads[1:] {
+			if !t.done {
+				return true
+			}
+		}
+		return false
+	}
+	me.what = "main waits for goroutines"
+	for me.blocked() {
+		next := s.decide(i, "main-exit")
+		if next == nil {
+			s.deadlock(i)
+		}
+		if next == me {
+			break
+		}
+		s.switchTo(next, me)
+	}
+	me.blocked = nil
+}
+
+// drain is called by runPath after the main thread unwound (normally or not):
+// kills parked threads and waits for their goroutines to stop touching the heap.
+func (s *scheduler) drain() (failure any, site string) {
+	if !s.enabled {
+		return nil, ""
+	}
+	if !s.killed {
+		s.killed = true
+		close(s.kill)
+	}
+	s.wg.Wait()
+	return s.failure, s.failSite
+}
+
+// ---- happens-before race detection
+
+func (s *scheduler) accessCheck(i *interpreter, obj any, write bool, what string) {
+	s.accessCheckAt(i, obj, write, what, i.curFnName())
+}
+
+func (s *scheduler) accessCheckAt(i *interpreter, obj any, write bool, what, here string) {
+	if !s.enabled || len(s.threads) < 2 || i.path == nil {
+		return
+	}
+	t := s.cur
+	rec := s.access[obj]
+	if rec == nil {
+		rec = &accessRec{reads: map[int]epoch{}}
+		s.access[obj] = rec
+	}
+	conflict := func(e epoch, kind string) {
+		if e.tid == t.id || e.clk <= t.vc.at(e.tid) {
+			return
+		}
+		key := what + " " + kind + " in " + e.fn + " || " + here
+		if !s.races[key] {
+			s.races[key] = true
+			i.raceFound(what, kind, e.fn, here)
+		}
+	}
+	if rec.lastWrite != nil {
+		if write {
+			conflict(*rec.lastWrite, "write/write")
+		} else {
+			conflict(*rec.lastWrite, "write/read")
+		}
+	}
+	if write {
+		for _, r := range rec.reads {
+			conflict(r, "read/write")
+		}
+		rec.lastWrite = &epoch{tid: t.id, clk: t.vc.at(t.id), fn: here}
+		rec.reads = map[int]epoch{}
+	} else {
+		rec.reads[t.id] = epoch{tid: t.id, clk: t.vc.at(t.id), fn: here}
+	}
+}
+
+func (i *interpreter) raceFound(what, kind, fn1, fn2 string) {
+	label := "data-race(" + kind + ") on " + what
+	msg := "unordered conflicting accesses (no happens-before edge): " + fn1 + "  ||  " + fn2
+	i.path.observed = append(i.path.observed, msg)
+	known := ""
+	for _, kp := range i.path.knownP {
+		if OpenKnown[kp.id] && matchPanicPattern(kp.site, label+" "+msg, fn2) {
+			known = kp.id
+			i.stats.KnownSeen[kp.id]++
+			break
+		}
+	}
+	i.violation("race", label, msg, fn2, i.path.model, known)
+}
+
+// visible: a generic visible operation on obj (atomic op, chan len, ...).
+func (s *scheduler) visible(i *interpreter, op string, obj any) {
+	if s.enabled && i.path != nil {
+		s.tick()
+		s.yield(i, op)
+	}
+}
+
+// ---- mutexes
+
+func (s *scheduler) mvcOf(p *value) *mutexVC {
+	m := s.mvc[p]
+	if m == nil {
+		m = &mutexVC{}
+		s.mvc[p] = m
+	}
+	return m
+}
+
+func (s *scheduler) lock(i *interpreter, mv value, write bool) {
+	p := mv.(*value)
+	ls := i.lockOf(p)
+	s.tick()
+	s.yield(i, "lock")
+	if write {
+		s.block(i, func() bool { return ls.writer || ls.readers > 0 }, "Lock")
+		ls.writer = true
+		ls.owner = s.cur.id
+		i.logUndo(func() { ls.writer = false })
+		m := s.mvcOf(p)
+		s.cur.vc.join(m.w)
+		s.cur.vc.join(m.r)
+	} else {
+		s.block(i, func() bool { return ls.writer }, "RLock")
+		ls.readers++
+		i.logUndo(func() { ls.readers-- })
+		s.cur.vc.join(s.mvcOf(p).w)
+	}
+}
+
+func (s *scheduler) unlock(i *interpreter, mv value, write bool) {
+	p := mv.(*value)
+	ls := i.lockOf(p)
+	s.tick()
+	m := s.mvcOf(p)
+	if write {
+		if !ls.writer {
+			panic("sync: unlock of unlocked mutex")
+		}
+		ls.writer = false
+		i.logUndo(func() { ls.writer = true })
+		m.w = s.cur.vc.clone()
+	} else {
+		if ls.readers <= 0 {
+			panic("sync: RUnlock of unlocked RWMutex")
+		}
+		ls.readers--
+		i.logUndo(func() { ls.readers++ })
+		m.r.join(s.cur.vc)
+	}
+	s.yield(i, "unlock")
+}
+
+// wgDone: WaitGroup.Done/Add(-n) releases the caller's clock into the group.
+func (s *scheduler) wgRelease(wg *value) {
+	s.tick()
+	s.wgvc[wg] = joined(s.wgvc[wg], s.cur.vc)
+}
+
+func (s *scheduler) waitUntil(i *interpreter, wg *value, cond func() bool, what string) {
+	s.tick()
+	s.yield(i, what)
+	s.block(i, func() bool { return !cond() }, what)
+	s.cur.vc.join(s.wgvc[wg]) // Done happens-before the return of Wait
+}
+
+// ---- channels (exact Go semantics: FIFO buffer, rendezvous, close)
 
 func (i *interpreter) chanSend(ch value, v value) {
 	c := ch.(*schan)
+	s := i.sched
+	if s == nil || !s.enabled || i.path == nil {
+		i.seqChanSend(c, v)
+		return
+	}
+	s.tick()
+	s.yield(i, "send")
+	if c == nil {
+		s.block(i, func() bool { return true }, "send on nil channel")
+	}
+	if c.closed {
+		panic("send on closed channel")
+	}
+	me := s.cur
+	if len(c.buf) < c.capacity {
+		old := c.buf
+		i.logUndo(func() { c.buf = old })
+		c.buf = append(append([]value{}, c.buf...), v)
+		s.chvc[c] = joined(s.chvc[c], me.vc)
+		return
+	}
+	// full or unbuffered: post an offer and park until a receiver takes it (or the channel is closed)
+	of := &offer{ch: c, v: v}
+	me.offer = of
+	c.offers = append(c.offers, of)
+	s.chvc[c] = joined(s.chvc[c], me.vc)
+	s.block(i, func() bool { return !of.taken && !c.closed }, "send (parked)")
+	me.offer = nil
+	if !of.taken {
+		// woken by close
+		removeOffer(c, of)
+		panic("send on closed channel")
+	}
+}
+
+func joined(a, b vclock) vclock {
+	r := a.clone()
+	r.join(b)
+	return r
+}
+
+func removeOffer(c *schan, of *offer) {
+	for k, o := range c.offers {
+		if o == of {
+			c.offers = append(append([]*offer{}, c.offers[:k]...), c.offers[k+1:]...)
+			return
+		}
+	}
+}
+
+func (i *interpreter) chanRecv(ch value) (value, bool) {
+	c := ch.(*schan)
+	s := i.sched
+	if s == nil || !s.enabled || i.path == nil {
+		return i.seqChanRecv(c)
+	}
+	s.tick()
+	s.yield(i, "recv")
+	if c == nil {
+		s.block(i, func() bool { return true }, "receive on nil channel")
+	}
+	s.block(i, func() bool { return len(c.buf) == 0 && len(c.offers) == 0 && !c.closed }, "recv (parked)")
+	s.cur.vc.join(s.chvc[c])
+	if len(c.buf) > 0 {
+		old := c.buf
+		i.logUndo(func() { c.buf = old })
+		v := c.buf[0]
+		c.buf = append([]value{}, c.buf[1:]...)
+		// a parked sender can now move its value into the buffer
+		if len(c.offers) > 0 {
+			of := c.offers[0]
+			c.offers = append([]*offer{}, c.offers[1:]...)
+			c.buf = append(c.buf, of.v)
+			of.taken = true
+		}
+		return v, true
+	}
+	if len(c.offers) > 0 {
+		of := c.offers[0]
+		c.offers = append([]*offer{}, c.offers[1:]...)
+		of.taken = true
+		return of.v, true
+	}
+	return nil, false // closed and drained
+}
+
+func (i *interpreter) chanClose(ch value) {
+	c := ch.(*schan)
+	s := i.sched
+	if s != nil && s.enabled && i.path != nil {
+		s.tick()
+		s.yield(i, "close")
+	}
+	if c == nil {
+		panic("close of nil channel")
+	}
+	if c.closed {
+		panic("close of closed channel")
+	}
+	i.logUndo(func() { c.closed = false })
+	c.closed = true
+	if s != nil && s.enabled && i.path != nil {
+		s.chvc[c] = joined(s.chvc[c], s.cur.vc)
+	}
+}
+
+// sequential (single-thread) channel model
+func (i *interpreter) seqChanSend(c *schan, v value) {
 	if c == nil {
 		panic(abort{kind: "deadlock", msg: "send on nil channel"})
 	}
@@ -52,8 +625,7 @@ func (i *interpreter) chanSend(ch value, v value) {
 	panic(abort{kind: "deadlock", msg: "send would block (single thread)"})
 }
 
-func (i *interpreter) chanRecv(ch value) (value, bool) {
-	c := ch.(*schan)
+func (i *interpreter) seqChanRecv(c *schan) (value, bool) {
 	if c == nil {
 		panic(abort{kind: "deadlock", msg: "receive on nil channel"})
 	}
@@ -70,47 +642,62 @@ func (i *interpreter) chanRecv(ch value) (value, bool) {
 	panic(abort{kind: "deadlock", msg: "receive would block (single thread)"})
 }
 
-func (i *interpreter) chanClose(ch value) {
-	c := ch.(*schan)
-	if c == nil {
-		panic("close of nil channel")
-	}
-	if c.closed {
-		panic("close of closed channel")
-	}
-	i.logUndo(func() { c.closed = false })
-	c.closed = true
-}
-
+// doSelect: ready cases are tried in source order (default if none). With the
+// scheduler on, a blocking select parks until some case is ready.
 func (i *interpreter) doSelect(fr *frame, instr *ssa.Select) value {
-	// sequential model: first ready case in order; default if none; else deadlock
-	chosen := -1
+	s := i.sched
+	threaded := s != nil && s.enabled && i.path != nil
+	ready := func() int {
+		for n, st := range instr.States {
+			c := fr.get(st.Chan).(*schan)
+			if c == nil {
+				continue
+			}
+			if st.Dir == types.RecvOnly {
+				if len(c.buf) > 0 || c.closed || len(c.offers) > 0 {
+					return n
+				}
+			} else {
+				if c.closed || len(c.buf) < c.capacity {
+					return n
+				}
+			}
+		}
+		return -1
+	}
+	if threaded {
+		s.tick()
+		s.yield(i, "select")
+	}
+	chosen := ready()
+	if chosen < 0 && instr.Blocking {
+		if !threaded {
+			panic(abort{kind: "deadlock", msg: "select would block (single thread)"})
+		}
+		s.block(i, func() bool { return ready() < 0 }, "select (parked)")
+		chosen = ready()
+	}
 	var recv value
 	recvOk := false
-	for n, st := range instr.States {
+	if chosen >= 0 {
+		st := instr.States[chosen]
 		c := fr.get(st.Chan).(*schan)
-		if c == nil {
-			continue
-		}
 		if st.Dir == types.RecvOnly {
-			if len(c.buf) > 0 || c.closed {
-				recv, recvOk = i.chanRecv(c)
-				chosen = n
-				break
+			recv, recvOk = i.recvNoYield(c)
+			if threaded {
+				s.cur.vc.join(s.chvc[c])
 			}
 		} else {
 			if c.closed {
 				panic("send on closed channel")
 			}
-			if len(c.buf) < c.capacity {
-				i.chanSend(c, fr.get(st.Send))
-				chosen = n
-				break
+			old := c.buf
+			i.logUndo(func() { c.buf = old })
+			c.buf = append(append([]value{}, c.buf...), fr.get(st.Send))
+			if threaded {
+				s.chvc[c] = joined(s.chvc[c], s.cur.vc)
 			}
 		}
-	}
-	if chosen < 0 && instr.Blocking {
-		panic(abort{kind: "deadlock", msg: "select would block (single thread)"})
 	}
 	r := tuple{chosen, recvOk}
 	for n, st := range instr.States {
@@ -127,4 +714,25 @@ func (i *interpreter) doSelect(fr *frame, instr *ssa.Select) value {
 	return r
 }
 
-var _ = fmt.Sprintf
+func (i *interpreter) recvNoYield(c *schan) (value, bool) {
+	if len(c.buf) > 0 {
+		old := c.buf
+		i.logUndo(func() { c.buf = old })
+		v := c.buf[0]
+		c.buf = append([]value{}, c.buf[1:]...)
+		if len(c.offers) > 0 {
+			of := c.offers[0]
+			c.offers = append([]*offer{}, c.offers[1:]...)
+			c.buf = append(c.buf, of.v)
+			of.taken = true
+		}
+		return v, true
+	}
+	if len(c.offers) > 0 {
+		of := c.offers[0]
+		c.offers = append([]*offer{}, c.offers[1:]...)
+		of.taken = true
+		return of.v, true
+	}
+	return nil, false
+}
